@@ -365,7 +365,7 @@ def spec(doc, cw=None, ch=None, flips=frozenset(), quirks=frozenset()):
     else:
         maxcll = maxfall = 0
     if doc["mastering"] is not None:
-        mdl_min = sat(st.trunc(Fraction(doc["mastering"]["min"]) * 10000, "mastering/min"), 65535)
+        mdl_min = sat(st.round(Fraction(doc["mastering"]["min"]) * 10000, "mastering/min"), 65535)
         mdl_max = doc["mastering"]["peak"]
     else:
         mdl_min = mdl_max = 0
